@@ -176,7 +176,7 @@ def direct(prop, ops):
                     out.append(Finding(prop, i, sig(i, "snapshot:" + problem.split(":")[0]), problem))
     if prop == "C05":
         out += accept_oracle(prop, ops, sig)
-    if prop in ("C06", "C10"):
+    if prop in ("C06", "C10", "C14"):
         out += items_oracle(prop, ops, sig)
     if prop == "C08":
         out += delivery_oracle(prop, ops, sig)
